@@ -1,6 +1,6 @@
 """C07 - parallel_pipeline: ordered serial stages, bounded tokens, each item exactly once.  (DESIGN.md section 4, C07)"""
 from engine.facts import AnalysisBroken, atomic_op, atomic_ops, has_acquire, has_release
-from engine.rules import (calls, calls_named, every_path_passes, last_member, is_call_to, Defs, resolve_cond_source,
+from engine.rules import (Summaries, calls, calls_named, every_path_passes, last_member, is_call_to, Defs, resolve_cond_source,
                           edges_where, dominated_by_edges, member_accesses, root_of, assignments, value_root, atomics_on, lockset)
 from rules.common import k7_task_class
 
@@ -142,27 +142,93 @@ def d2_handoff(facts, rep):
 
 
 def d3_tokens(facts, rep):
-    for fn in facts.get(R1 + 'stage_task::try_spawn_stage_task'):
-        ops = [(p, o) for p, o in atomics_on(fn, 'input_tokens')]
-        rm = [(p, o) for p, o in ops if o['kind'] == 'rmw' and o['name'] == 'fetch_sub']
-        no = [c for c in calls_named(fn, ('new_object',)) if 'stage_task' in c[3]['q']]
-        if not rm or not no:
-            raise AnalysisBroken('try_spawn_stage_task: fetch_sub / new_object<stage_task> not found')
-        rmn = set(o['s'] for _, o in rm)
+    # (1) a new input-stage task is created only by a thread that has just taken a token and saw that at least one is left
+    # (fetch_sub(1) > 1).  Robust against helper functions: the guard may be the comparison itself, a call to a function whose
+    # every return is that comparison, or a variable holding either; an unguarded creation site inside a helper lifts the
+    # obligation to every call site of the helper (depth 3).
+    st_fns = [f for f in facts.fns.values() if (f.cls or '') == R1 + 'stage_task']
+    if not st_fns:
+        raise AnalysisBroken('stage_task methods not found')
 
-        def gt1(a, truth):
-            n = fn.n(fn.strip(a))
-            if n.get('k') != 'binop' or n['op'] not in ('>', '>='):
-                return False
-            if not (fn.subtree(n['l']) & rmn):
-                return False
-            v = fn.cv(n['r'])
-            return truth and ((n['op'] == '>' and v is not None and v >= 1) or (n['op'] == '>=' and v is not None and v >= 2))
-        e = edges_where(fn, gt1)
-        for c in no:
-            ok, wit = dominated_by_edges(fn, c[0], e)
+    def token_left_expr(f, x, depth=0):
+        """x is (or resolves to) `input_tokens.fetch_sub(..) > 1` (>= 2), directly or through a helper that returns it"""
+        if depth > 3:
+            return False
+        defs = Defs(f)
+        x = resolve_cond_source(f, defs, x)
+        n = f.n(f.strip(x))
+        if n.get('k') == 'binop' and n['op'] in ('>', '>='):
+            has_sub = any((atomic_op(f, y) or {}).get('name') == 'fetch_sub' and last_member(f, atomic_op(f, y)['obj']) == 'input_tokens'
+                          for y in f.subtree(n['l']) if f.nodes[y].get('k') == 'call')
+            v = f.cv(n['r'])
+            return has_sub and v is not None and ((n['op'] == '>' and v >= 1) or (n['op'] == '>=' and v >= 2))
+        if n.get('k') == 'call':
+            g = facts.fns.get(n.get('fn'))
+            if g is not None and g.u != f.u:
+                rets = [nd for pos, sx, nd in g.stmt_elems(('return',)) if 'sub' in nd]
+                return bool(rets) and all(token_left_expr(g, nd['sub'], depth + 1) for nd in rets)
+        return False
+
+    def guarded(f, pos):
+        e = edges_where(f, lambda a, truth: truth and token_left_expr(f, a))
+        return dominated_by_edges(f, pos, e)
+
+    def obligation(f, pos, depth, trail):
+        ok, wit = guarded(f, pos)
+        if ok:
+            return True, ''
+        if depth >= 3:
+            return False, wit
+        cs = facts.callers(f.u)
+        cs = [c for c in cs if (c[0].cls or '') == R1 + 'stage_task']
+        if not cs or f.p.endswith('stage_task::(ctor)'):
+            return False, wit
+        for (g, cpos, csx) in cs:
+            ok2, w2 = obligation(g, cpos, depth + 1, trail + [g.p])
+            if not ok2:
+                return False, 'unguarded call chain %s: %s' % (' <- '.join([f.p.split('::')[-1]] + [t.split('::')[-1] for t in trail + [g.p]]), w2)
+        return True, ''
+    nsites = 0
+    for fn in st_fns:
+        for c in calls_named(fn, ('new_object',)):
+            if 'stage_task' not in (c[3].get('q') or ''):
+                continue
+            # the first-stage constructor takes (pipeline, allocator); the clone of a parked item takes (pipeline, filter, info, allocator)
+            nargs = len(c[2].get('a', []))
+            if nargs > 3:
+                continue
+            nsites += 1
+            ok, wit = obligation(fn, c[0], 0, [])
             rep.ob('D3', 'K4', fn, 'a new input-stage task is created only when a token was left (fetch_sub(1) > 1)', ok,
-                   'more than max_number_of_live_tokens items can be in flight: ' + wit, ln=c[2]['ln'])
+                   'more than max_number_of_live_tokens items can be in flight: ' + wit, ln=c[2]['ln'], key_extra='create|%s' % fn.p)
+    if nsites < 1:
+        raise AnalysisBroken('creation of a first-stage stage_task (new_object<stage_task>(ed, pipeline, alloc)) not found in stage_task')
+    # (2) an ordered first filter stamps the item with its token BEFORE anything lets another input-stage invocation start: no
+    # call that takes a pipeline token (fetch_sub on input_tokens, directly or in a helper) or creates an input-stage task can
+    # precede get_ordered_token() on a path through execute_filter.  Otherwise the task that returns the last token recycles
+    # itself as the next input task, reads item i+1 and stamps it before item i got its stamp: every later serial_in_order
+    # filter sees them in the wrong order.
+    summ = Summaries(facts, max_depth=3)
+
+    def enabler(f, pos, e):
+        if not isinstance(e, int) or f.nodes[e].get('k') != 'call':
+            return False
+        op = atomic_op(f, e)
+        if op and op['kind'] == 'rmw' and op['name'] == 'fetch_sub' and last_member(f, op['obj']) == 'input_tokens':
+            return True
+        d = f.callee(e) or {}
+        return d.get('n') == 'new_object' and 'stage_task' in (d.get('q') or '')
+    for fn in facts.get(R1 + 'stage_task::execute_filter'):
+        gs = calls_named(fn, ('get_ordered_token',))
+        if not gs:
+            raise AnalysisBroken('execute_filter: get_ordered_token call not found')
+        ens = [(b, i) for b, i, e in fn.iter_elems() if summ.elem_may(fn, (b, i), e, 'enabler', enabler)]
+        for gp, gsx, gnode, gd in gs:
+            before = [q for q in ens if q != gp and fn.can_reach(q, gp)]
+            rep.ob('D3', 'K4', fn, 'the ordered token is assigned before the item\'s pipeline token is taken / the next input task is started', not before,
+                   'a call at line(s) %s that takes a pipeline token or starts an input task precedes get_ordered_token(): another input-stage '
+                   'invocation can stamp a later item first' % sorted(set(fn.nodes[fn.elems(q[0])[q[1]]].get('ln') for q in before)),
+                   ln=gnode['ln'], key_extra='stamp-first')
     for fn in facts.get(R1 + 'stage_task::execute_filter'):
         defs = Defs(fn)
         fa = [(p, o) for p, o in atomics_on(fn, 'input_tokens') if o['kind'] == 'rmw' and o['name'] == 'fetch_add']
@@ -196,9 +262,11 @@ def d3_tokens(facts, rep):
             continue
         for p, o in atomics_on(fn, 'input_tokens', kinds=('store', 'rmw', 'cas')):
             writers.append((fn, o))
-    allowed = (R1 + 'stage_task::try_spawn_stage_task', R1 + 'stage_task::execute_filter')
+    # by kind of operation and owner class, not by function name (helpers may be extracted): only stage_task takes / returns
+    # tokens, and only by an atomic add / subtract
     for fn, o in writers:
-        rep.ob('D3', 'K1', fn, 'input_tokens is modified only by the two token RMWs', fn.p in allowed and o['kind'] == 'rmw',
+        ok = (fn.cls or '') == R1 + 'stage_task' and o['kind'] == 'rmw' and o['name'] in ('fetch_sub', 'fetch_add', 'operator++', 'operator--')
+        rep.ob('D3', 'K1', fn, 'input_tokens is modified only by the token RMWs of stage_task', ok,
                '%s does %s on input_tokens' % (fn.p, o['name']), ln=o['ln'], key_extra=str(o['ln']))
     # who creates input-stage tasks
     for fn in facts.fns.values():
@@ -211,8 +279,8 @@ def d3_tokens(facts, rep):
             q = c[3]['q']
             input_stage = 'task_info' not in q and 'base_filter' not in q
             if input_stage:
-                ok = fn.p in (R1 + 'parallel_pipeline', R1 + 'stage_task::try_spawn_stage_task')
-                rep.ob('D3', 'K11', fn, 'input-stage tasks are created only by parallel_pipeline() and try_spawn_stage_task', ok,
+                ok = fn.p == R1 + 'parallel_pipeline' or (fn.cls or '') == R1 + 'stage_task'
+                rep.ob('D3', 'K11', fn, 'input-stage tasks are created only by parallel_pipeline() and by stage_task itself (under the token guard)', ok,
                        '%s creates an input-stage task outside the token protocol' % fn.p, ln=c[2]['ln'], key_extra=str(c[2]['ln']))
     rep.floor('D3', 5, 'token accounting')
 
